@@ -215,7 +215,10 @@ func runC01(w *World, r *Report) {
 			continue
 		}
 		k := cs.In.Common().Args[0]
-		if Derives(k, func(x ssa.Value) bool { s, ok := constString(x); return ok && (s == "_counter" || s == "_window_start") }) {
+		if Derives(k, func(x ssa.Value) bool {
+			s, ok := constString(x)
+			return ok && (s == "_counter" || s == "_window_start")
+		}) {
 			ok := idMatches(id, "memoryState).AtomicWindowReset")
 			r.Check(ok, "R4", "counter-key-writers/"+shortFn(id), posOf(cs.In), "direct Set on a counter/window key in %s", id)
 		}
@@ -301,7 +304,9 @@ func c01Quota(w *World, r *Report) {
 		if b {
 			nTrue++
 			opErr, _ := FindRel(rels, isErr, isNilConst)
-			opSp, _ := FindRel(rels, func(v ssa.Value) bool { return strings.Contains(Path(v), "getCountFromContext(param:q, param:q.spilloverCountKey)") }, func(v ssa.Value) bool { return isIntConst(v, 0) })
+			opSp, _ := FindRel(rels, func(v ssa.Value) bool {
+				return strings.Contains(Path(v), "getCountFromContext(param:q, param:q.spilloverCountKey)")
+			}, func(v ssa.Value) bool { return isIntConst(v, 0) })
 			r.Check(opErr == "==" || opSp == ">", "R5", "quota.Inc/memo-true-only-when-admitted", posOf(mu), "memo[reqID]=true under err %q nil / spillover %q 0 (want err == nil of AtomicIncWindow, or spillover > 0)", opErr, opSp)
 		} else {
 			found := false
@@ -321,7 +326,9 @@ func c01Quota(w *World, r *Report) {
 	incC, blkC, alrC := w.constOf(pkgQuota, "increased"), w.constOf(pkgQuota, "blocked"), w.constOf(pkgQuota, "alreadyIncreased")
 	for _, alt := range ReturnAlts(inc, 0) {
 		memoTrue := func(pol bool) bool {
-			return condsHave(alt.Conds, pol, func(v ssa.Value) bool { return strings.HasPrefix(Path(v), "param:q.allowedByReqID[") && !strings.HasSuffix(Path(v), "#1") })
+			return condsHave(alt.Conds, pol, func(v ssa.Value) bool {
+				return strings.HasPrefix(Path(v), "param:q.allowedByReqID[") && !strings.HasSuffix(Path(v), "#1")
+			})
 		}
 		switch {
 		case isConstVal(alt.Val, incC):
@@ -329,7 +336,9 @@ func c01Quota(w *World, r *Report) {
 		case isConstVal(alt.Val, blkC):
 			r.Check(memoTrue(false), "R5", "quota.Inc/returns-blocked", posOf(alt.Ret), "blocked returned only when memo[reqID] is false")
 		case isConstVal(alt.Val, alrC):
-			ok := condsHave(alt.Conds, true, func(v ssa.Value) bool { return strings.HasSuffix(Path(v), "]#1") && strings.Contains(Path(v), "q.allowedByReqID[") })
+			ok := condsHave(alt.Conds, true, func(v ssa.Value) bool {
+				return strings.HasSuffix(Path(v), "]#1") && strings.Contains(Path(v), "q.allowedByReqID[")
+			})
 			r.Check(ok, "R5", "quota.Inc/returns-alreadyIncreased", posOf(alt.Ret), "alreadyIncreased returned only when the request id is already in the memo")
 		default:
 			r.Fail("R5", "quota.Inc/result", posOf(alt.Ret), "unexpected result %s", Path(alt.Val))
@@ -360,7 +369,9 @@ func c01Quota(w *World, r *Report) {
 		for _, alt := range ReturnAlts(al, 0) {
 			n++
 			found := func(pol bool) bool {
-				return condsHave(alt.Conds, pol, func(v ssa.Value) bool { return strings.HasSuffix(Path(v), "]#1") && strings.Contains(Path(v), "q.allowedByReqID[") })
+				return condsHave(alt.Conds, pol, func(v ssa.Value) bool {
+					return strings.HasSuffix(Path(v), "]#1") && strings.Contains(Path(v), "q.allowedByReqID[")
+				})
 			}
 			if b, isC := constBool(alt.Val); isC {
 				r.Check(!b && found(false), "R5", "quota.Allowed/unknown-request", posOf(alt.Ret), "constant %v returned on not-found=%v (want false for a request without a memo entry)", b, found(false))
@@ -495,7 +506,9 @@ func c01Hierarchy(w *World, r *Report, la *LockAn) {
 				nm := litField(alt.Val, "Name")
 				if ph, ok := nm.(*ssa.Phi); ok {
 					isAl := func(cs []Cond) bool {
-						return condsHave(cs, true, func(v ssa.Value) bool { return strings.Contains(Path(v), "QuotaResourceI).Allowed(") && strings.HasSuffix(Path(v), "#0") })
+						return condsHave(cs, true, func(v ssa.Value) bool {
+							return strings.Contains(Path(v), "QuotaResourceI).Allowed(") && strings.HasSuffix(Path(v), "#0")
+						})
 					}
 					y, n := phiEdgesWhere(ph, isAl)
 					okName = len(y) == 1 && len(n) == 1 && isConstVal(y[0], below) && isConstVal(n[0], above)
